@@ -90,6 +90,7 @@ Theorem C01_estimator_safe_unbounded_stops :
     (Z.of_nat n <= 2 ^ 40)%Z -> (Z.of_nat (k * b) <= 2 ^ 40)%Z ->
     (stops n b k acc = true -> n <= acc) /\ (n <= acc -> estimate_batches n b (k * b) acc 0 <= S k).
 Proof. exact estimator_safe_unbounded_stops. Qed.
+Print Assumptions C01_estimator_safe_unbounded_stops.
 
 (** Non-vacuity outside the old finite domain: n = 1000, batch_size = 100, 37 batches consumed, 12
     acceptable draws — the theorem's bound 37 < estimate, against the evaluated estimate 3084. *)
